@@ -21,6 +21,7 @@ import (
 	"path/filepath"
 	"strconv"
 	"strings"
+	"time"
 
 	"github.com/nelhage/taktician/playtak"
 	"github.com/nelhage/taktician/ptn"
@@ -33,15 +34,46 @@ func init() {
 }
 
 func genBotParent(c *Ctx) {
+	if c.Shard == 0 { // sweep what killed runs left behind
+		if old, _ := filepath.Glob(filepath.Join(os.TempDir(), "c07-*")); len(old) > 0 {
+			for _, d := range old {
+				if st, err := os.Stat(d); err == nil && time.Since(st.ModTime()) > 2*time.Hour {
+					os.RemoveAll(d)
+				}
+			}
+		}
+	}
 	dir, err := os.MkdirTemp("", "c07-")
 	if err != nil {
 		panic(err)
 	}
 	defer os.RemoveAll(dir)
 	cmd := exec.Command(os.Args[0], "run", "-prop", "C07w", "-seed", strconv.FormatUint(c.Seed, 10), "-tier", c.Tier, "-out", dir, "-shards", "1")
-	cmd.Env = append(os.Environ(), fmt.Sprintf("VERIF_C07_SHARD=%d", c.Shard), fmt.Sprintf("VERIF_C07_NSHARD=%d", c.NShard), "GOMAXPROCS=1")
+	journal := filepath.Join(dir, "journal")
+	cmd.Env = append(os.Environ(), fmt.Sprintf("VERIF_C07_SHARD=%d", c.Shard), fmt.Sprintf("VERIF_C07_NSHARD=%d", c.NShard), "GOMAXPROCS=1", "VERIF_C07_JOURNAL="+journal)
 	if out, err := cmd.CombinedOutput(); err != nil {
-		panic(fmt.Sprintf("C07 worker failed: %v\n%s", err, out))
+		// the worker died (a panic outside the protocol goroutine kills the process): report the case in
+		// progress as a disagreement - its last op has no output on the Go side
+		jb, jerr := os.ReadFile(journal)
+		if jerr != nil || len(jb) == 0 {
+			panic(fmt.Sprintf("C07 worker failed: %v\n%s", err, out))
+		}
+		lines := strings.Split(strings.TrimRight(string(jb), "\n"), "\n")
+		for i := 0; i < len(lines); i++ {
+			if !strings.HasPrefix(lines[i], "> ") {
+				continue
+			}
+			op, res := lines[i][2:], "worker-crashed"
+			if i+1 < len(lines) && strings.HasPrefix(lines[i+1], "< ") {
+				res = lines[i+1][2:]
+			}
+			c.ops.WriteString(op + "\n")
+			c.exp.WriteString(res + "\n")
+			c.N++
+		}
+		c.Count("WORKER-CRASHED")
+		fmt.Fprintf(os.Stderr, "C07 worker %d crashed: %v\n%s\n", c.Shard, err, clip(string(out), 2000))
+		return
 	}
 	of, err := os.Open(filepath.Join(dir, "C07w.00.ops"))
 	if err != nil {
@@ -57,6 +89,7 @@ func genBotParent(c *Ctx) {
 	so.Buffer(make([]byte, 1<<20), 1<<26)
 	se.Buffer(make([]byte, 1<<20), 1<<26)
 	first := true
+	caseHash, caseLen := uint64(14695981039346656037), 0
 	for so.Scan() {
 		if !se.Scan() {
 			panic("C07 worker: short .exp")
@@ -72,12 +105,22 @@ func genBotParent(c *Ctx) {
 		c.exp.WriteString(out)
 		c.exp.WriteByte('\n')
 		c.N++
-		if !strings.HasPrefix(line, "case ") {
-			c.distinct[hashStr(line)] = struct{}{}
+		// distinct = distinct schedules: hash of all op lines of a case (the `case n` line excluded)
+		if strings.HasPrefix(line, "case ") {
+			if caseLen > 1 {
+				c.distinct[caseHash] = struct{}{}
+			}
+			caseHash, caseLen = 14695981039346656037, 0
+		} else {
+			caseHash = (caseHash ^ hashStr(line)) * 1099511628211
+			caseLen++
 		}
 		if len(c.samples) < 3 || (c.N%9973 == 0 && len(c.samples) < 8) {
 			c.samples = append(c.samples, line+" => "+clip(out, 300))
 		}
+	}
+	if caseLen > 1 {
+		c.distinct[caseHash] = struct{}{}
 	}
 	var sum struct {
 		Distribution map[string]int `json:"distribution"`
@@ -87,6 +130,26 @@ func genBotParent(c *Ctx) {
 			c.Stats[k] += v
 		}
 	}
+}
+
+// ---- journal: the op lines of the case in progress, so that a worker killed by a panic on a goroutine
+// the harness cannot guard (a thinker goroutine of handleMove) still yields a replayable violation
+
+var botJournal *os.File
+
+func jemit(c *Ctx, line string) string {
+	if botJournal != nil {
+		if strings.HasPrefix(line, "case ") {
+			botJournal.Truncate(0)
+			botJournal.Seek(0, 0)
+		}
+		botJournal.WriteString("> " + line + "\n")
+	}
+	out := c.Emit(line)
+	if botJournal != nil {
+		botJournal.WriteString("< " + out + "\n")
+	}
+	return out
 }
 
 // ---- scenarios
@@ -101,12 +164,13 @@ type botScn struct {
 	replay int      // moves the server replays (resume) from the start, whoever is to move
 	menu   string   // enabled event classes
 	depth  int
+	gameNo int
 }
 
 var botScripts = map[int][]string{
-	3: {"a1", "c3", "c2", "a2", "c1"},                                          // white road at ply 5
+	3: {"a1", "c3", "c2", "a2", "c1"},                                            // white road at ply 5
 	4: {"a1", "d4", "b1", "c4", "b2", "c3", "b1+", "c4-", "Sa3", "d1", "2b2>11"}, // slides and a wall
-	5: {"a1", "e1", "e3", "b1", "e2", "b2", "Ce4", "a2", "e5"},                  // the transcript of bot_test.go (capstone, white road)
+	5: {"a1", "e1", "e3", "b1", "e2", "b2", "Ce4", "a2", "e5"},                   // the transcript of bot_test.go (capstone, white road)
 }
 
 func mkScript(size int) ([]tak.Move, tak.Move) {
@@ -171,7 +235,7 @@ type botRun struct {
 func (r *botRun) cur() *tak.Position { return r.srv[len(r.srv)-1] }
 
 func (r *botRun) emit(line string) string {
-	out := r.c.Emit(line)
+	out := jemit(r.c, line)
 	r.b = botOf(r.c.S)
 	r.sync()
 	return out
@@ -200,7 +264,14 @@ func (r *botRun) sync() {
 		mine := (r.scn.colour == "w" && r.cur().ToMove() == tak.White) || (r.scn.colour == "b" && r.cur().ToMove() == tak.Black)
 		n, err := r.cur().Move(m)
 		if err != nil || !mine {
-			r.c.Count("srv:NOK")
+			if r.used['g'] > 0 {
+				r.c.Count("srv:NOK-after-a-line-no-server-sends")
+			} else {
+				r.c.Count("srv:NOK")
+			}
+			if os.Getenv("VERIF_C07_DEBUG") != "" {
+				fmt.Fprintf(os.Stderr, "NOK: scn=%s sent=%q mine=%v err=%v ply=%d N=%d\n", r.scn.name, x, mine, err, r.cur().MoveNumber(), r.c.N)
+			}
 			continue
 		}
 		r.srv = append(r.srv, n)
@@ -208,12 +279,12 @@ func (r *botRun) sync() {
 }
 
 func (r *botRun) start(id int) {
-	r.c.Emit(fmt.Sprintf("case %d", id))
+	jemit(r.c, fmt.Sprintf("case %d", id))
 	r.srv = []*tak.Position{tak.New(tak.Config{Size: r.scn.size})}
 	r.seen, r.undoReq, r.tseen, r.times = 0, false, 0, 0
 	r.replay = r.scn.replay
 	r.used = map[byte]int{}
-	line := fmt.Sprintf("botnew %s %d 600 %d", r.scn.colour, r.scn.size, 100+id%900)
+	line := fmt.Sprintf("botnew %s %d 600 %d", r.scn.colour, r.scn.size, r.scn.gameNo)
 	if r.variant != "" {
 		line += " v=" + r.variant
 	}
@@ -221,6 +292,14 @@ func (r *botRun) start(id int) {
 }
 
 func (r *botRun) deliver(line string, extra string) string {
+	// a move line of this game is a move of the server's history (whoever wrote the line)
+	if bits := strings.Split(line, " "); len(bits) >= 2 && bits[0] == r.gs() && (bits[1] == "P" || bits[1] == "M") {
+		if m, err := playtak.ParseServer(strings.Join(bits[1:], " ")); err == nil {
+			if n, err := r.cur().Move(m); err == nil {
+				r.srv = append(r.srv, n)
+			}
+		}
+	}
 	op := "ev deliver " + hex.EncodeToString([]byte(line))
 	if line == "" {
 		op = "ev deliver -"
@@ -293,8 +372,6 @@ func (r *botRun) options() []botOpt {
 	if r.replay > 0 || r.scn.colour == "o" || !r.botToMove() {
 		if m, ok := r.scriptMove(r.cur()); ok {
 			add('M', func() {
-				n, _ := r.cur().Move(m)
-				r.srv = append(r.srv, n)
 				if r.replay > 0 {
 					r.replay--
 				}
@@ -311,11 +388,23 @@ func (r *botRun) options() []botOpt {
 	nt := len(b.timers)
 	b.mu.Unlock()
 	if c != nil {
-		if m, ok := r.scriptMove(c.p); ok {
-			add('a', func() { r.emit("ev aireturns " + encMove(m)) })
+		tag := func() {
+			switch {
+			case c.ctx.Err() != nil:
+				r.c.Count("ai:answers-after-cancel")
+			case c.p == b.game.VerifP():
+				r.c.Count("ai:answers-for-current-position")
+			default:
+				r.c.Count("ai:answers-for-superseded-position")
+			}
 		}
-		add('A', func() { r.emit("ev aireturns " + encMove(r.scn.alt)) })
-		add('x', func() { r.emit("ev aireturns 0,0,0,0") })
+		if m, ok := r.scriptMove(c.p); ok {
+			add('a', func() { tag(); r.emit("ev aireturns " + encMove(m)) })
+		}
+		add('A', func() { tag(); r.emit("ev aireturns " + encMove(r.scn.alt)) })
+		add('x', func() { tag(); r.emit("ev aireturns 0,0,0,0") })
+	} else if over, _ := b.game.VerifP().GameOver(); over && !b.over() {
+		r.c.Count("state:decided-position-idle-thinker")
 	}
 	if nt > r.tseen {
 		add('t', func() { r.tseen = nt; r.emit("ev timer") })
@@ -377,8 +466,6 @@ func (r *botRun) prefix(k int) {
 		if !ok {
 			return
 		}
-		n, _ := r.cur().Move(m)
-		r.srv = append(r.srv, n)
 		r.deliver(r.gs()+" "+playtak.FormatServer(m), "")
 		r.times++
 		r.deliver(fmt.Sprintf("%s Time %d %d", r.gs(), 600-7*r.times, 590-3*r.times), "")
@@ -423,7 +510,7 @@ func exploreScn(c *Ctx, scn *botScn, first int, caseID *int, variant string, bud
 			opts[stack[depth].choice].do()
 			depth++
 		}
-		c.Emit("state")
+		jemit(c, "state")
 		runs++
 		c.Count("scn:" + scn.name)
 		c.Count(fmt.Sprintf("len:%d", depth))
@@ -471,7 +558,7 @@ func randomWalk(c *Ctx, scn *botScn, rng *RNG, caseID *int, variant string, leng
 			break
 		}
 	}
-	c.Emit("state")
+	jemit(c, "state")
 	c.Count("scn:" + scn.name)
 	c.Count(fmt.Sprintf("len:%d", n))
 	if r.b != nil {
@@ -487,6 +574,9 @@ func envInt(k string, d int) int {
 }
 
 func genBotWorker(c *Ctx) {
+	if jp := os.Getenv("VERIF_C07_JOURNAL"); jp != "" {
+		botJournal, _ = os.Create(jp)
+	}
 	shard, nshard := envInt("VERIF_C07_SHARD", 0), envInt("VERIF_C07_NSHARD", 1)
 	variant := os.Getenv("VERIF_C07_VARIANT")
 	extra := 0
@@ -499,7 +589,7 @@ func genBotWorker(c *Ctx) {
 		script, alt := mkScript(size)
 		mk := func(name, colour, menu string, pre, replay, depth int) {
 			scns = append(scns, &botScn{name: fmt.Sprintf("%s-%s%d", name, colour, size), colour: colour, size: size, script: script, alt: alt,
-				pre: pre, replay: replay, menu: menu, depth: depth + extra})
+				pre: pre, replay: replay, menu: menu, depth: depth + extra, gameNo: 100 + len(scns)})
 		}
 		maxPre := len(script) - 1
 		if size != 3 && !c.Thorough() {
@@ -545,6 +635,7 @@ func genBotWorker(c *Ctx) {
 		}
 		w.pre = rng.Intn(len(w.script))
 		w.replay = 0
+		w.gameNo = 1 + rng.Intn(99999)
 		if rng.Chance(1, 3) {
 			w.pre = 0
 			w.replay = 1 + rng.Intn(len(w.script))
